@@ -418,3 +418,36 @@ KILL_TABLE: dict[str, list[tuple]] = {
            "P:sub_graph_node.break_uids", "1")], [], ""),
     ],
 }
+
+
+# ---- which successors of an event occur together (input of the loop
+# ---- classifier: an AND fork with one branch leaving the loop is no break)
+OVERLAP_TABLE: dict[str, list[tuple]] = {
+    "get_overlapping_event_types": [
+        ("the groups are the connected components", "ret", "", "",
+         ("{frozenset(each(connected_components(Graph()))) for..}",), [], [],
+         ""),
+    ],
+    "get_overlapping_events_from_event_sets_and_connected_events": [
+        ("per group: the connected events whose type is in the group",
+         "ret", "", "",
+         ("[{each(P:connected_events) for.. if (each(P:connected_events)."
+          "event_type In each(get_overlapping_event_types(P:event_sets)))} "
+          "for..]",), [], [], ""),
+    ],
+    "get_overlapping_events_from_event_and_graph": [
+        ("from the event's own successor sets and its successors in the "
+         "graph", "ret", "", "",
+         ("get_overlapping_events_from_event_sets_and_connected_events("
+          "P:event.event_sets,{each(P:graph.successors(P:event)) for..})",),
+         [], [], ""),
+    ],
+    "get_event_to_over_lapping_events_map": [
+        ("every node of the graph with a non-empty grouping is in the map",
+         "store", "", "{}[each(P:graph.nodes)]",
+         ("get_overlapping_events_from_event_and_graph(each(P:graph.nodes),"
+          "P:graph)",),
+         [("truth", "get_overlapping_events_from_event_and_graph(each("
+           "P:graph.nodes),P:graph)", "1")], [], ""),
+    ],
+}
